@@ -360,7 +360,7 @@ impl System for C08Sys {
                 // bystander must be untouched by controller operations addressed to the own sign
                 // (a bystander that is itself receiving legitimately consumes the unaddressed data/count messages: not judged)
                 let bystander_receiving = self.bystander.is_some() && matches!(s.bus.sign(0).state(), State::ConfigInProgress | State::PixelsInProgress);
-                if self.bystander.is_some() && !bystander_receiving && bus.sign(0) != s.bus.sign(0) {
+                if self.bystander.is_some() && !bystander_receiving && !crate::signsys::obs_equal(bus.sign(0), s.bus.sign(0)) {
                     viol.push(("bystander-untouched".into(), format!("{:?}", op), format!("{}: the other sign on the bus changed", ctx)));
                 }
                 if bus == s.bus {
@@ -445,17 +445,8 @@ pub fn run(ctx: &Ctx) -> Report {
     let mut xs = vec![];
     if rep.violations.is_empty() {
         for (ti, automatic) in [(5usize, false), (2usize, true)] {
-            let name = make_sys(ti, automatic, 3, None, false, ctx.seed).name();
-            let mine = runs.iter().find(|r| r["run"] == json!(name)).and_then(|r| r["states"].as_u64());
             // the thorough tier explores address 3 with the richer chunk alphabet; compare like with like
-            let rich = thorough;
-            let sr = crate::xcheck::stateright_unique_states(make_sys(ti, automatic, 3, None, rich, ctx.seed));
-            if let Some(mine) = mine {
-                xs.push(json!({"run": name, "stateright_unique_states": sr, "own_explorer_states": mine, "equal": sr == mine}));
-                if sr != mine {
-                    rep.machinery_errors.push(format!("E5 cross-check: stateright found {} unique states for {}, the own explorer {}", sr, name, mine));
-                }
-            }
+            crate::xcheck::cross_check(&mut rep, &mut xs, &runs, make_sys(ti, automatic, 3, None, thorough, ctx.seed));
         }
     }
     rep.set("stateright_cross_check", Value::Array(xs));
